@@ -35,7 +35,7 @@ func init() {
 		Run:   c05Run,
 		Kinds: []core.Kind{core.ReplayOf("normal", c05Normal), core.ReplayOf("t", c05T), core.ReplayOf("delta", c05Delta)},
 		Rule: "NormalDist on the (Mu,Sigma) lattice {-1e6,-3.5,0,2,1e6} x {1e-6,0.5,1,3,1e6} with x = Mu + k*Sigma/8, k=-320..320 (+-40 standard units) and a p lattice down to 1e-300 including Acklam's region switch +-1 ulp; " +
-			"TDist on V in {0.1,0.25,0.5,1,1.5,2,3,4.5,10,30,100,1e3,1e4} with x = k/8 and +-10^j; DeltaDist on 5 locations. Oracle: erfc series in up to 5000-bit big.Float on the exact standardised argument; finite closed form of the t CDF for integer V, gonum StudentsT elsewhere. " +
+			"TDist on V in {0.1,0.25,0.37,0.5,1,1.5,2,3,4.5,7.3,10,30,33.3,100,128.4,250.5,341.5,1e3,2500.5,1e4} with x = k/8 and +-10^j; DeltaDist on 5 locations. Oracle: erfc series in up to 5000-bit big.Float on the exact standardised argument; finite closed form of the t CDF for integer V, gonum StudentsT elsewhere. " +
 			"Rand with 3 seeded sources and with the nil (global, re-seeded) source bit for bit against NormFloat64()*Sigma+Mu. Each parameter set is one case (non-trivial); every lattice point is one library evaluation.",
 		Technique: "bounded-exhaustive lattice enumeration of the real distributions against high-precision references; integrals by 20-point Gauss-Legendre per lattice cell",
 		Assumptions: []string{
@@ -257,12 +257,42 @@ func c05TRef(v, x float64) float64 {
 	if isInt(v) {
 		return ref.ToF(ref.TCDFInt(x, int(v)))
 	}
-	if x*x <= v/4 {
+	if x*x <= v/4 && x*x <= 4 {
 		// gonum uses the same 1 - I(v/(v+x^2)) form as the library and shares
-		// its cancellation near x = 0; the Maclaurin series does not.
+		// its cancellation near x = 0; the Maclaurin series does not. (For large V the
+		// series is only used for |x| <= 2: its terms grow like those of exp(-x^2/2).)
 		return ref.TCDFSeries(x, v)
 	}
+	if v >= 20 {
+		// gonum's incomplete beta loses the far tail for large first parameters (and
+		// overflows Gamma from V ~ 340): integrate the density instead.
+		return c05TTail(v, x)
+	}
 	return distuv.StudentsT{Mu: 0, Sigma: 1, Nu: v}.CDF(x)
+}
+
+// c05TTail evaluates the t CDF for V >= 20 by composite 20-point Gauss-Legendre
+// quadrature of the density over the tail beyond |x| (the density is smooth and
+// decays at least like |t|^-21 there; the tail beyond |x|+span is < 1e-30).
+func c05TTail(v, x float64) float64 {
+	lg1, _ := math.Lgamma((v + 1) / 2)
+	lg2, _ := math.Lgamma(v / 2)
+	lc := lg1 - lg2 - 0.5*math.Log(v*math.Pi)
+	pdf := func(t float64) float64 { return math.Exp(lc - (v+1)/2*math.Log1p(t*t/v)) }
+	a := math.Abs(x)
+	span := 60 * math.Sqrt(v/(v-2)) * (1 + a/8)
+	const panels = 600
+	q := 0.0
+	for i := 0; i < panels; i++ {
+		// geometric-ish panels: fine near a, wider further out
+		lo := a + span*math.Pow(float64(i)/panels, 2)
+		hi := a + span*math.Pow(float64(i+1)/panels, 2)
+		q += ref.Integrate20(pdf, lo, hi)
+	}
+	if x < 0 {
+		return q
+	}
+	return 1 - q
 }
 
 func c05T(c *C05T, r *core.Rec) {
@@ -290,6 +320,10 @@ func c05T(c *C05T, r *core.Rec) {
 		r.Trans(1)
 		r.OutcomeF(g)
 		want := c05TRef(c.V, x)
+		if isInt(c.V) && c.V >= 20 && x*x > 4 {
+			r.Err("oracle-vs-closed-form(t quadrature)", math.Abs(c05TTail(c.V, x)-want), 1e-11)
+			r.Valid(1)
+		}
 		if isInt(c.V) && c.V <= 100 && x*x > c.V/4 {
 			// measure the non-integer oracle against the closed form where both exist
 			r.Err("oracle-vs-closed-form(t)", math.Abs(distuv.StudentsT{Mu: 0, Sigma: 1, Nu: c.V}.CDF(x)-want), 1e-10)
@@ -377,7 +411,7 @@ func c05Run(c *core.Ctx) {
 	r := c.R
 	mus := []float64{-1e6, -3.5, 0, 2, 1e6}
 	sigmas := []float64{1e-6, 0.5, 1, 3, 1e6}
-	vs := []float64{0.1, 0.25, 0.5, 1, 1.5, 2, 3, 4.5, 10, 30, 100, 1e3, 1e4}
+	vs := []float64{0.1, 0.25, 0.37, 0.5, 1, 1.5, 2, 3, 4.5, 7.3, 10, 30, 33.3, 100, 128.4, 250.5, 341.5, 1e3, 2500.5, 1e4}
 	if c.Thorough() {
 		mus = append(mus, -1, 1e-3, 123.456, 1e3)
 		sigmas = append(sigmas, 1e-3, 0.1, 7, 1e3)
